@@ -116,6 +116,7 @@ class Tail:
         self.colstores = []      # (container, column, source vector, its value, extent, node)
         self.cellstores = []     # (container, index text, scalar value, node)
         self.same_size = {}      # vector -> extents known to equal its size (from its allocation)
+        self.partial = []        # (container, where, how) updates that provably touch only part of a container
         self.ignore_out = None
         self.params, self.pnames = set(), [p['name'] for p in f.params]
 
@@ -132,6 +133,7 @@ class Tail:
         t.colstores = list(self.colstores)
         t.cellstores = list(self.cellstores)
         t.same_size = self.same_size
+        t.partial = list(self.partial)
         t.path = list(getattr(self, 'path', []))
         t.imprecise = getattr(self, 'imprecise', False)
         return t
@@ -254,6 +256,26 @@ class Tail:
             return
         raise NotUnderstood('call to %s' % cn)
 
+    def covered(self, l, extents, what, lp):
+        """loop (var, lo, hi, step) against the accepted extent expressions: full -> True; provably short of it (starts after 0, stops a constant
+        before the end) -> recorded in self.partial, the caller reports it; anything else is not understood"""
+        var, lo, hi, step = l[:4]
+        full = str(lo) == '0' and step == 1 and str(hi) in extents
+        if full:
+            return True
+        short = None
+        if step == 1 and isinstance(lo, Poly) and lo.is_const() and lo.const_value() > 0 and str(hi) in extents:
+            short = 'starts at %s' % lo
+        if step == 1 and str(lo) == '0':
+            for e in extents:
+                d = Poly.atom(e) - hi if isinstance(hi, Poly) else None
+                if d is not None and d.is_const() and d.const_value() > 0:
+                    short = 'stops at %s' % hi
+        if short:
+            self.partial.append((what, self.f.unit.where(lp), short))
+            return True
+        raise NotUnderstood('loop at %s does not cover the whole of %s' % (self.f.unit.where(lp), what))
+
     def loop(self, lp):
         ex = Extractor(self.prog, self.f)
         ex.locals_ok = True
@@ -275,9 +297,10 @@ class Tail:
                 lvs = {l[0]: l for l in c.loops}
                 if c.mode == '=' and len(oi) == 2 and len(at) == 1 and c.term.n == Poly.atom(at[0]) and c.term.d == Poly.const(1) and \
                         at[0].startswith('L:') and at[0].count('[') == 1 and at[0].endswith('[%s]' % oi[0]) and oi[0] in lvs and \
-                        str(lvs[oi[0]][1]) == '0' and lvs[oi[0]][3] == 1 and oi[1] not in lvs:
+                        lvs[oi[0]][3] == 1 and oi[1] not in lvs:
                     src = at[0][2:].split('[')[0]
-                    self.colstores.append((arr, oi[1], src, dict(self.v(src)), str(lvs[oi[0]][2]), c.node))
+                    ext = str(lvs[oi[0]][2]) if str(lvs[oi[0]][1]) == '0' else 'from %s to %s' % (lvs[oi[0]][1], lvs[oi[0]][2])
+                    self.colstores.append((arr, oi[1], src, dict(self.v(src)), ext, c.node))
                     continue
                 raise NotUnderstood('store into %s: %r' % (arr, c))
             smap = {}
@@ -287,15 +310,17 @@ class Tail:
                         raise NotUnderstood('scalar %s has no tracked value' % at[2:])
                     smap[at] = self.sc[at[2:]]
             lv = {l[0]: l for l in c.loops}
-            if any(str(l[1]) != '0' or l[3] != 1 for l in c.loops):
-                raise NotUnderstood('loop at %s does not run from 0 in unit steps' % self.f.unit.where(lp))
+            if any(l[3] != 1 for l in c.loops):
+                raise NotUnderstood('loop at %s does not run in unit steps' % self.f.unit.where(lp))
             idx = [str(x) for x in c.out[1]]
             if len(idx) == 1 and name in self.vec and c.mode == '=' and len(c.term.atoms()) == 1 and c.term.d == Poly.const(1):
                 # whole-vector copy  v[i] = u[i]
                 at = list(c.term.atoms())[0]
                 srcname = at[2:].split('[')[0] if at.startswith('L:') else None
-                if idx[0] not in lv or (str(lv[idx[0]][2]) not in ('%s->size' % name, '%s->size' % srcname) and at.count('[') != 2) or c.term.n != Poly.atom(at):
+                if idx[0] not in lv or c.term.n != Poly.atom(at):
                     raise NotUnderstood('vector store %r' % c)
+                if at.count('[') != 2 or str(lv[idx[0]][1]) != '0':
+                    self.covered(lv[idx[0]], ('%s->size' % name, '%s->size' % srcname) + tuple(self.same_size.get(name, ())), name, lp)
                 if at.startswith('L:') and at.endswith('[%s]' % idx[0]) and at.count('[') == 1:
                     self.vec[name] = dict(self.v(at[2:].split('[')[0]))
                 elif at.count('[') == 2 and at.split('[')[1] == idx[0] + ']' and not at.startswith('L:') and at.split('[')[2][:-1] not in lv:
@@ -306,8 +331,9 @@ class Tail:
                 continue
             if len(idx) == 1 and name in self.vec:
                 # whole-vector scaling  v[i] *= s   /   v[i] /= s
-                if idx[0] not in lv or (str(lv[idx[0]][2]) != '%s->size' % name and str(lv[idx[0]][2]) not in self.same_size.get(name, ())):
+                if idx[0] not in lv:
                     raise NotUnderstood('loop at %s does not cover the whole of %s' % (self.f.unit.where(lp), name))
+                self.covered(lv[idx[0]], ('%s->size' % name,) + tuple(self.same_size.get(name, ())), name, lp)
                 if any(not at.startswith('S:') for at in c.term.atoms()) or c.mode not in ('*=', '/='):
                     raise NotUnderstood('vector update %r' % c)
                 s = rsubst(c.term, smap)
@@ -317,8 +343,10 @@ class Tail:
                 continue
             if len(idx) == 2 and name in self.mat and c.mode == '+=':
                 # rank-one update  M[i][j] += s * a[i] * b[j]
-                if [str(lv.get(i, (0, 0, ''))[2]) for i in idx] != ['%s->row' % name, '%s->col' % name]:
+                if any(i not in lv for i in idx):
                     raise NotUnderstood('loop at %s does not cover the whole of %s' % (self.f.unit.where(lp), name))
+                self.covered(lv[idx[0]], ('%s->row' % name,), name, lp)
+                self.covered(lv[idx[1]], ('%s->col' % name,), name, lp)
                 cells = [at for at in c.term.atoms() if not at.startswith('S:')]
                 if len(cells) != 2 or c.term.d.atoms() - set(smap):
                     raise NotUnderstood('matrix update %r' % c)
@@ -466,6 +494,14 @@ def proportional(u, v, defs=None):
     return all((u[b] * v[b0]).same(v[b] * u[b0]) for b in u)
 
 
+def report_partial(chk, rule, f, st, where):
+    for what, w, how in getattr(st, 'partial', []):
+        chk.instance(rule, '%s %s: the update of %s %s' % (w, f.name, what, how), 'refuted')
+        chk.violation(Finding(rule, rel(f.file), f.name, 'partial:%s' % what, w,
+                              '%s (%s): the loop at %s updates %s only in part (it %s), the rest keeps its previous content' % (f.name, where, w, what, how)))
+    return bool(getattr(st, 'partial', []))
+
+
 def latent_variable(chk, prog):
     R = chk.rule('PLS.latent-variable', 'LVCalc hands back p = unit(X\'t/t\'t), t*|X\'t/t\'t|, w*|X\'t/t\'t|, b = u\'t/t\'t for the final t, and deflates '
                  'X by t p\' and Y by b t q\' with the very vectors it hands back (exact arithmetic over a free vector algebra)')
@@ -594,6 +630,9 @@ def latent_variable(chk, prog):
                 elif not vsame(uv, u_want):
                     probs.append(('u', 'the response score is %s, not Y q / q\'q = %s' % (vshow(uv)[:200], vshow(u_want)[:200])))
             kindp = 'several responses'
+        if report_partial(chk, Ri, f, ex_, 'iteration'):
+            ex_.partial = []
+            continue
         if not probs:
             chk.instance(Ri, '%s LVCalc (%s; path %s): t = X w, %s' % (f.unit.where(loop), kindp, path,
                          'q = 1, u untouched' if kindp == 'one response' else 'q ~ Y\'t, u = Y q / q\'q'))
@@ -607,6 +646,7 @@ def latent_variable(chk, prog):
     except NotUnderstood as e:
         chk.broke('LVCalc: the statements after the iteration are not understood: %s' % e)
         return None
+    report_partial(chk, R, f, tl, 'after the iteration')
     # ---- the definition (steps 9-14 of the documented algorithm), in the same algebra ------------------------------------
     T0, U0, W0, Q0 = ({x: ONE} for x in (tn, un, wn, qn))
     X0 = {('M', Xn): ONE}
